@@ -2385,6 +2385,7 @@ func main() {
 		b.WriteString("/-! GENERATED by harness/cmd/go2lean from the Go source of /repo on every check run — do not edit.\n" +
 			"Each definition is the translation of one function of onet (see `notes/built/C20.md`, \"translator\");\n" +
 			"library functions are the hand-written models named in `meta/go2lean.json`. -/\n")
+		b.WriteString("set_option linter.unusedVariables false\n")
 		b.WriteString("namespace " + m.Namespace + "\n\n")
 		var cn []string
 		for n := range t.consts {
